@@ -232,12 +232,14 @@ def _zoom_cases(tier):
     out = [dict(total=8, bases=[2], targets=[4, 8], K=1), dict(total=6, bases=[1], targets=[3, 2, 6], K=1),
            dict(total=6, bases=[2, 3], targets=[6], K=1), dict(total=8, bases=[2], targets=[4, 3], K=1),
            dict(total=8, bases=[2, 4], targets=[8], K=1),
+           dict(total=16, bases=[4, 8], targets=[16], K=1),   # a pair of bin sizes that a Python set does not iterate in ascending order
            dict(total=12, bases=[2, 3], targets=[4, 6], K=1, mixed=True, one_chrom=True)]   # two bases whose value column has different dtypes
     if tier != "quick":
         out += [dict(total=8, bases=[2], targets=[4, 8], K=2), dict(total=12, bases=[2], targets=[6, 4, 2], K=1), dict(total=12, bases=[2, 3], targets=[6, 4], K=1),
                 dict(total=12, bases=[2], targets=[4, 12, 6], K=1), dict(total=12, bases=[3, 2], targets=[12, 6, 4], K=1),
                 dict(total=16, bases=[2], targets=[4, 8, 16], K=1), dict(total=12, bases=[1], targets=[2, 3, 6], K=1),
-                dict(total=12, bases=[2, 4], targets=[8, 12], K=1)]
+                dict(total=12, bases=[2, 4], targets=[8, 12], K=1), dict(total=20, bases=[10, 5], targets=[20], K=1),
+                dict(total=24, bases=[8, 4, 12], targets=[24], K=1)]
     return out
 
 
